@@ -96,6 +96,14 @@ func c18Setup(prm c18Params) func(c *fw.Ctx, name string) explore.Setup {
 						vtime.Sleep(2 * time.Second)
 						nc.SetWriteDeadline(t)
 						wdl, wdlSet = w.Now, w.Now
+					case "RDf":
+						// a deadline centuries ahead (beyond what fits into 63 bits of nanoseconds
+						// since 1970): it never passes
+						nc.SetReadDeadline(time.Date(3000, 1, 1, 0, 0, 0, 0, time.UTC))
+						rdl, rdlSet = c18None, w.Now
+					case "WDf":
+						nc.SetWriteDeadline(time.Date(3000, 1, 1, 0, 0, 0, 0, time.UTC))
+						wdl, wdlSet = c18None, w.Now
 					case "RD0":
 						nc.SetReadDeadline(time.Time{})
 						rdl, rdlSet = c18None, w.Now
@@ -423,6 +431,8 @@ func c18Scenarios(tier string) []scenario {
 		}
 	}
 	gen(nil)
+	// far-future deadlines
+	seqs = append(seqs, []string{"RDf", "R"}, []string{"RDf", "S1", "R"}, []string{"WDf", "W"}, []string{"WDf", "S1", "W"}, []string{"RD1", "RDf", "S2", "R"}, []string{"WDp", "WDf", "W"}, []string{"RDf", "WDf", "S2", "R", "W"})
 	if depth < 4 {
 		// a deadline and its reset on the same instant (the timer has fired, its
 		// callback has not run yet): the shortest programs that reach it have length 4
